@@ -807,7 +807,10 @@ class VCluster:
         self.slurm[hid] = {"batch": bidx, "argv": argv, "state": "pending", "node": None, "name": info.get("name", "?"),
                            "jobs": jobs, "word": None, "odd": None}
         self.log("sbatch", p.pid, bidx, hid, info.get("jobs", ()), info.get("groups", ()), info.get("account"))
-        return 0, f"Submitted batch job {hid}\n", ""
+        # a busy controller: sbatch warns on stderr, retries by itself and then succeeds (exit 0, id printed) — every
+        # fourth accepted submission; what is on stderr of a successful sbatch must not matter
+        err = "sbatch: error: Slurm temporarily unable to accept job, sleeping and retrying.\n" if hid % 4 == 1 else ""
+        return 0, f"Submitted batch job {hid}\n", err
 
     # ------------------------------------------------------------------ entry points
     def _entry_submit(self, local=False):
